@@ -1,13 +1,19 @@
 """C12 — conditional assembly selects exactly the documented branch.
 
 Every branch body of a generated skeleton starts with a unique 16-bit marker, may define symbols, re-SET
-variables, reference constants, call macros / open REPT blocks (with EXITM) and — where the generator knows the
-branch is skipped — contain statements that would raise an error if they were assembled.  The reference
+variables, reference constants, call macros / open REPT, IRP, WHILE blocks (with EXITM) and — where the generator
+knows the branch is skipped — contain statements that would raise an error if they were assembled.  The reference
 interpreter vf/model/cond.py (written from the manual) predicts the byte stream, the set of symbols that exist
-afterwards, the number of 'no CASE matched' warnings; the real assembler is run on the rendered source and the
+afterwards and the number of 'no CASE matched' warnings; the real assembler is run on the rendered source and the
 code file (independent reader), the final symbol dump (hook H1), the diagnostics (hook H4) and the construct
 depth at the end of every pass (hook H6) are compared with the prediction.  Malformed skeletons must end with
 >=1 error and exit status 2.
+
+A disagreement is reduced before it is keyed (every top-level skeleton of a batch alone, then the blamed construct
+alone); the key names the kind of construct, the role of the branch at which the observed marker stream leaves
+the predicted one, and the direction: select:<IF|IFDEF|..|SWITCH-int|..>:<head|elseif|else|case|elsecase>:<taken|skipped>-wrongly.
+Other keys: sequence:*, effect:symbol-*, wellformed:error-<n>|warning-<n>|status-<rc>, switch:no-match-warning-*,
+stack:constructs-open-at-end-of-pass, malformed:<class>:<accepted-with-status-0|status-<rc>|no-error-reported>, crash keys.
 """
 import hashlib
 import itertools
@@ -20,27 +26,32 @@ ID = 'C12'
 LEVEL = 'exploration'
 RULE = ('skeleton = one top-level IF-family ladder or SWITCH construct with everything nested in it; families: (a) exhaustive flat shapes '
         '(IF-ladder/SWITCH x 1..3 conditional branches x default yes/no x every truth vector = 56) and exhaustive depth-2 shapes (one nested flat shape in one '
-        'branch of an outer flat shape = 9184; quick tier: a seeded sample), each realised with random head kinds / selector types, (b) IFB/IFNB with every '
+        'branch of an outer flat shape = 9184; quick tier: a seeded sample of 1500), each realised with random head kinds / selector types, (b) IFB/IFNB with every '
         'blank/non-blank pattern of 0..5 arguments, written directly and through macro parameters, (c) sampled skeletons up to depth 4 x 5 branches with '
-        'symbol definitions, SETs, references, poison statements in skipped branches, macro calls, REPT and EXITM, (d) malformed skeletons of 18 classes in '
-        'random well-formed contexts; distinct = distinct structural signature (construct kinds, branch counts, selected branches, nesting; ids and literal '
-        'values ignored) resp. (malformed class, depth, context); non-trivial = at least one construct was reached by the assembler in an assembled region')
-ASSUMPTIONS = ['conditions are restricted to forms whose value the manual fixes: integer literals, comparisons =,==,<>,<,<=,>,>= of integers/floats/strings of equal type, '
-               '&&, ||, ~~, fully parenthesised; IF expressions are integers',
+        'symbol definitions, SETs, references, poison statements in skipped branches, macro calls, REPT/IRP/WHILE and EXITM, a quarter of them in two-pass programs, '
+        '(d) EXITM executed below 1..4 open constructs inside a macro/REPT/IRP/WHILE expanded below 0..2 open constructs, (e) chains of 5..250 nested constructs, '
+        '(f) malformed skeletons of 18 classes in random well-formed contexts; distinct = distinct structural signature (construct kinds, branch counts, selected '
+        'branches, nesting; ids and literal values ignored) resp. (malformed class, depth, context); non-trivial = the skeleton contains a construct')
+ASSUMPTIONS = ['conditions are restricted to forms whose value the manual fixes: integer literals, comparisons =,==,<>,<,<=,>,>= of integers/floats of equal type, '
+               '=,==,<> of strings, &&, ||, ~~, fully parenthesised; IF expressions are integers in the 32-bit range',
                'CASE values have the type of the selector; floats are exactly representable',
-               'symbols tested by IFDEF/IFUSED are defined/referenced earlier in the source or never; one pass suffices (no forward references)',
+               'symbols tested by IFDEF/IFNDEF are defined earlier in the source, on the command line (-D) or never; IFUSED/IFNUSED only in one-pass programs '
+               'and only on constants that are never tested by IFDEF',
                'the construct depth is read through hook H6 before the assembler clears its stacks',
-               'malformed classes are limited to statements for which no construct of the matching family is open anywhere (stray), a second default branch, or a missing terminator']
+               'malformed classes are limited to statements for which no construct of the matching family is open anywhere (stray), a second default branch, '
+               'a CASE/ELSECASE after ELSECASE, or a missing terminator; the offending statement is always in an assembled region']
 MANIFEST = dict(
     category='exploration', design_ref='DESIGN.md §4 C12',
     technique='reference-model monitor: an interpreter of conditional skeletons written from the manual predicts marker bytes, surviving symbols, warnings; '
               'compared with code file, symbol dump, diagnostic log and end-of-pass construct depth of real executions; error/status contract on malformed skeletons',
     text='Held on the executions of this run: for exhaustively enumerated small skeleton shapes (depth <=2, <=3 conditional branches + default, all truth vectors), '
          'all blank/non-blank IFB/IFNB argument patterns up to 5 arguments, and sampled skeletons up to depth 4 x 5 branches (integer/float/string selectors, '
-         'overlapping CASE lists, IFDEF/IFUSED/IFEXIST heads, macros, REPT, EXITM) exactly the predicted branch contributed code, symbols, references and diagnostics, '
-         'the construct stack was empty at the end of every pass, and every malformed skeleton (stray/duplicate/missing statements) ended with >=1 error and status 2.',
+         'overlapping CASE lists, IFDEF/IFUSED/IFEXIST heads, -D symbols, macros, REPT/IRP/WHILE, EXITM, one- and two-pass programs, nesting chains up to 250) '
+         'exactly the predicted branch contributed code, symbols, references and diagnostics, the construct stack was empty at the end of every pass, and every '
+         'malformed skeleton (stray/duplicate/missing statements) ended with >=1 error and status 2.',
     note='Conditions are limited to expression forms with manual-defined values; statements between SWITCH and the first CASE, labels on conditional statements, '
-         'conditionals left open across the end of a macro body, mixed-type CASE lists and malformed statements inside skipped blocks are not generated (manual silent).')
+         'conditionals left open across the end of a macro body or include file, mixed-type CASE lists, IF values outside 32 bits, IFUSED across passes and '
+         'malformed statements inside skipped blocks are not generated (manual silent).')
 REGISTERED = True
 
 INT_POOL = [-2, -1, 0, 1, 2, 3, 7, 255, 256, 4660, 65535, 100000]
@@ -966,6 +977,7 @@ def judge2(ctx, prog, name):
     ctx.write(name, src)
     # the line budget of hook H5 bounds a WHILE that would not terminate (exit status 96 instead of a timeout)
     a = asl.assemble(ctx, name, asm_args(prog), out=name[:-4] + '.p', trace=True, extra_env={'ASL_VERIF_MAX_LINES': '400000'})
+    out.obs['asl_executions'] += 1
     if a.run.timed_out:
         raise Inconclusive('timeout')
     if a.run.san:
@@ -1151,6 +1163,8 @@ def run_malformed(ctx, case):
     ctx.write('m.asm', src)
     a = asl.assemble(ctx, 'm.asm', args, trace=True, extra_env={'ASL_VERIF_MAX_LINES': '400000'})
     cls = case['class']
+    out.obs['asl_executions'] += 1
+    out.obs['skeletons_malformed'] += 1
     out.sample = dict(desc, source_tail=src.split('\n')[-14:])
     out.sig = ('malformed', cls, desc['depth'], desc['context'])
     out.nontrivial = True
@@ -1174,6 +1188,13 @@ def run_malformed(ctx, case):
     else:
         out.obs['malformed_rejected'] += 1
         out.sets['malformed_classes_rejected'].add(cls)
+
+
+def finish(obs, sets):
+    # the unit of evaluation is the skeleton (several per assembled program), not the process execution
+    n = sum(v for k, v in obs.items() if k.startswith('skeletons_'))
+    return {'evaluations': n, 'evaluations_unit': 'skeletons judged (several well-formed skeletons share one assembled program; reductions re-assemble them alone)',
+            'asl_executions': obs.get('asl_executions', 0)}
 
 
 def run_case(case, ctx):
